@@ -287,6 +287,61 @@ def forward_saves_input_state(n):
     return fn
 
 
+def backward_zero_incoming_gradient(n):
+    """A loss that is stationary at this step's output hands backward() the zero vector; the gradient of the
+    step is then exactly zero and must come back as zeros - not as an exception or nan.  The Lanczos
+    routines cannot start from the zero vector (v / |v|): symbolically they are stubs that check exactly
+    that precondition, on the real torch the real ones run."""
+
+    def fn(env):
+        from types import SimpleNamespace
+
+        T = env.torch
+        te = env.mod("emu_sv.time_evolution")
+        omega, delta, phi, U = _params(env, n, False)
+        dim = 2**n
+        state = env.tensor_cplx("psi", (dim,))
+        env.assume(scalar(T.linalg.vector_norm(state)) > 0.01, "the input state is not (numerically) zero")
+        gout = T.zeros(dim, dtype=T.complex128)
+        ctx = SimpleNamespace(saved_tensors=(omega, delta, phi, U, state), dt=5.0, tolerance=1e-8, needs_input_grad=(False, True, True, True, True, True, False, False))
+        saved = (te.double_krylov, te.krylov_exp)
+        if env.mode != "real":
+
+            def need_nonzero(v, who):
+                if not bool(v.any()):
+                    raise RecursionError(f"{who}: Lanczos iteration cannot start from the zero vector")
+
+            def fake_double_krylov(op, s, g, tol):
+                need_nonzero(s, "double_krylov(state)")
+                need_nonzero(g, "double_krylov(grad)")
+                return [s.clone()], T.zeros(1, 1, dtype=T.complex128), [g.clone()]
+
+            def fake_krylov_exp(op, v, *a, **k):
+                need_nonzero(v, "krylov_exp")
+                return v.clone()
+
+            te.double_krylov, te.krylov_exp = fake_double_krylov, fake_krylov_exp
+        try:
+            try:
+                out = te.EvolveStateVector.backward(ctx, gout, None)
+                raised = None
+            except (RecursionError, RuntimeError, ZeroDivisionError) as e:
+                out, raised = None, e
+            env.check(raised is None, "backward with a zero incoming gradient returns (it does not raise)")
+        finally:
+            te.double_krylov, te.krylov_exp = saved
+        if out is not None:
+            names = ["omega", "delta", "phi", "interaction matrix", "state"]
+            if env.mutant("expects_nonzero"):
+                env.check_eq(out[1], T.ones_like(omega), "canary: gradient wrt omega is one")
+            for name, g, like in zip(names, out[1:6], (omega, delta, phi, U, state)):
+                env.check(g is not None, f"zero incoming gradient: a gradient is returned for {name}")
+                if g is not None:
+                    env.check_eq(g, 0.0 * like, f"zero incoming gradient: the gradient wrt {name} is exactly zero (finite)")
+
+    return fn
+
+
 COVERS_BACKWARD = [
     ("emu_sv/time_evolution.py", "EvolveStateVector.backward"),
     ("emu_sv/time_evolution.py", "EvolveStateVector.get_hamiltonian"),
@@ -322,6 +377,9 @@ def backward_assembly(n, all_flag_sets):
         K = 2  # Krylov vectors per basis handed back by the stub
         state = env.tensor_cplx("psi", (dim,))
         gout = env.tensor_cplx("gpsi", (dim,))
+        # (a zero incoming gradient is the subject of backward_zero_incoming_gradient; the Krylov stub below
+        # returns data unrelated to its arguments, which is only meaningful for a non-zero gradient)
+        env.assume(scalar(T.linalg.vector_norm(gout)) > 0.01, "the incoming gradient is not (numerically) zero")
         dt = env.real("dt", lo=0.001, hi=100.0)
         sets = list(itertools.product([False, True], repeat=5)) if all_flag_sets else FLAG_SETS_SMALL
         flags = env.choice("needs_input_grad", sets)
@@ -498,6 +556,17 @@ def cases(tier):
                 covers=[("emu_sv/time_evolution.py", "EvolveStateVector.forward"), ("emu_sv/time_evolution.py", "EvolveStateVector.evolve")],
                 bounds={"n_qubits": n, "input state": "symbolic complex vector of any (non-zero) norm", "krylov_exp": "stub honouring its documented contract: arbitrary result, argument overwritten"},
                 canaries=["expects_scaled_state"],
+                weight=4**n,
+            )
+        )
+    for n in ([1, 2] if quick else [1, 2, 3]):
+        out.append(
+            Case(
+                f"backward_zero_incoming_gradient_n{n}",
+                backward_zero_incoming_gradient(n),
+                covers=COVERS_BACKWARD,
+                bounds={"n_qubits": n, "incoming gradient": "exactly zero", "Krylov routines": "stubs that refuse the zero vector (the real ones divide by its norm)"},
+                canaries=["expects_nonzero"],
                 weight=4**n,
             )
         )
